@@ -76,3 +76,61 @@ package syncer
 //@          && same(result.states[k], consensus.ApplyBlock(ite(k == 0, consensus.ApplyBlock(callres("SendCheckpoint", 0), callres("SendCheckpoint", 1), consensus.V1BlockSupplement{}, time.Time{}), result.states[k-1]), result.blocks[k], consensus.V1BlockSupplement{}, time.Time{})))
 //@   ensures [v1-matched] result.err == nil && req.base.Height < cs.Network.HardforkV2.RequireHeight ==>
 //@        forall k int :: { result.blocks[k] } 0 <= k && k < len(result.blocks) ==> result.blocks[k].ID() == headers[req.base.Height - cs.Index.Height + k].ID()
+//
+// Relayed headers, block outlines and transaction sets (handleRPC): a relayed block reaches
+// AddBlocks only after its proof of work was checked against the parent's target and found
+// sufficient and after it was found to attach to the tip; the peer is reported (ban) when the work
+// is insufficient, when the transactions it supplied do not complete the block it relayed, when
+// the block is rejected, and when it relays an empty transaction set.
+//@ iface ChainManager.State
+//@   assigns nothing
+//@ iface ChainManager.Block
+//@   assigns nothing
+//@ iface ChainManager.Tip
+//@   assigns nothing
+//@ iface ChainManager.TransactionsForPartialBlock
+//@   assigns nothing
+//@ iface ChainManager.AddV2PoolTransactions
+//@   assigns nothing
+//@ iface ChainManager.AddBlocks
+//@   assigns nothing
+//@   precall [work-checked] called("CmpWork") && callres("CmpWork") >= 0
+//@   precall [attaches] called("Tip")
+//@ func (*Syncer).resync
+//@   assigns nothing
+//@ extern (*gateway.Stream).ReadRequest
+//@   assigns pointee:r
+//@ extern (*gateway.Stream).WriteResponse
+//@   assigns nothing
+//@ extern gateway.ObjectForID
+//@   assigns nothing
+//@ extern frand.Shuffle
+//@   assigns *
+//@ func validatePeer
+//@   assigns nothing
+//@ iface PeerStore.Peers
+//@   assigns nothing
+//@ iface ChainManager.Headers
+//@   assigns nothing
+//@ iface ChainManager.BlocksForHistory
+//@   assigns nothing
+//@ func (*Syncer).Peers
+//@   assigns nothing
+//@ func (*Peer).Addr
+//@   assigns nothing
+//@ extern (gateway.V2BlockOutline).Missing
+//@   assigns nothing
+//@ extern (gateway.V2BlockOutline).ID pure
+//@ extern (*gateway.V2BlockOutline).Complete
+//@   assigns nothing
+//@ extern (*gateway.V2BlockOutline).RemoveTransactions
+//@   assigns pointee:bo
+//@ func (*Peer).SendTransactions props C11
+//@   assigns nothing
+//@   requires p != nil
+//@ func (*Syncer).handleRPC props C11
+//@   requires s != nil && s.cm != nil && stream != nil && origin != nil
+//@   ensures [insufficient-work] called("CmpWork") && callres("CmpWork") < 0 ==> called("ban") && !called("AddBlocks") && !called("relayV2Header") && !called("relayV2BlockOutline")
+//@   ensures [rejected-block] called("AddBlocks") && callres("AddBlocks") != nil ==> called("ban") && !called("relayV2BlockOutline")
+//@   ensures [wrong-missing] called("SendTransactions") && callres("SendTransactions", 2) == nil && !called("AddBlocks") ==> called("ban")
+//@   ensures [no-empty-set] called("AddV2PoolTransactions") ==> len(callarg("AddV2PoolTransactions", 2)) > 0
